@@ -315,7 +315,7 @@ func init() {
 		Gen: genC04,
 		Run: runC04,
 		Floors: map[string]float64{"cond-with-stack-expr": 0.1, "cond-with-cond-expr": 0.03, "empty-nested-stack": 0.1, "nil-leaf": 0.1, "depth>=3": 0.2,
-			"BASIC-nested": 0.1, "folded-label": 0.05, "isequal-checked": 0.3},
+			"BASIC-nested": 0.1, "folded-label": 0.05, "isequal-checked": 0.12},
 		Assumptions: []string{"[]any values are not used as leaves (they are re-interpreted by design)", "a Condition that is itself a Condition's expression may be passed through as-is by Unmarshal (Condition.Unmarshal documents 'as-is' for non-Stack expressions)"},
 	})
 }
